@@ -197,7 +197,7 @@ pub fn harvest(repo: &Path) -> Corpus {
     }
     let inputs: Vec<Input> = seen.into_values().collect();
     // every identifier the repository's own examples write inside `#[educe(..)]`
-    let mut tested: std::collections::BTreeSet<String> = std::collections::BTreeSet::new();
+    let mut tested: std::collections::BTreeMap<String, usize> = std::collections::BTreeMap::new();
     fn idents_in_educe(ts: TokenStream, inside: bool, out: &mut std::collections::BTreeSet<String>) {
         let toks: Vec<TokenTree> = ts.into_iter().collect();
         for i in 0..toks.len() {
@@ -215,7 +215,11 @@ pub fn harvest(repo: &Path) -> Corpus {
     }
     for i in &inputs {
         if let Ok(ts) = i.text.parse::<TokenStream>() {
-            idents_in_educe(ts, false, &mut tested);
+            let mut here = std::collections::BTreeSet::new();
+            idents_in_educe(ts, false, &mut here);
+            for w in here {
+                *tested.entry(w).or_insert(0) += 1;
+            }
         }
     }
     crate::gen::set_tested_words(&tested.into_iter().collect::<Vec<_>>());
